@@ -221,7 +221,6 @@ func (u *DefaultUnifier) mergeModel(unified *domain.UnifiedModel, model *Model, 
 	}
 
 	if !updated {
-		platform := u.extractor.DetectPlatform(model.Format, model.Metadata, endpoint.Type)
 		state := u.extractor.MapModelState(model.Metadata, model.Size)
 
 		sourceEndpoint := NewSourceEndpointBuilder().
@@ -233,17 +232,20 @@ func (u *DefaultUnifier) mergeModel(unified *domain.UnifiedModel, model *Model, 
 			Build()
 
 		unified.SourceEndpoints = append(unified.SourceEndpoints, sourceEndpoint)
+	}
 
-		hasAlias := false
-		for _, alias := range unified.Aliases {
-			if alias.Name == model.Name {
-				hasAlias = true
-				break
-			}
+	// every name under which an endpoint lists this model stays findable: also the second name
+	// of one endpoint (two Ollama tags of the same blob), which only updates the source above
+	hasAlias := false
+	for _, alias := range unified.Aliases {
+		if alias.Name == model.Name {
+			hasAlias = true
+			break
 		}
-		if !hasAlias {
-			unified.Aliases = append(unified.Aliases, domain.AliasEntry{Name: model.Name, Source: platform})
-		}
+	}
+	if !hasAlias {
+		platform := u.extractor.DetectPlatform(model.Format, model.Metadata, endpoint.Type)
+		unified.Aliases = append(unified.Aliases, domain.AliasEntry{Name: model.Name, Source: platform})
 	}
 
 	// Endpoints may report different metadata for same model - keep best info
